@@ -166,6 +166,27 @@ class ClosureV:
 
 
 @dataclass
+class ClassV:
+    """a class defined at module level in the repository (plain classes, @dataclass, NamedTuple)"""
+    rel: str
+    node: Any                 # ast.ClassDef
+
+
+@dataclass
+class InstV:
+    """an instance of a repository class: its own fields; methods come from the class"""
+    cls: ClassV
+    fields: Dict[str, Any] = field(default_factory=dict)
+
+
+@dataclass
+class BoundV:
+    """a function value with its first argument (self / cls) already supplied"""
+    fn: Any                   # ClosureV
+    first: Any
+
+
+@dataclass
 class BoundGetV:
     """xs.__getitem__ / d.get / d.__getitem__ taken as a value"""
     obj: Any
@@ -234,8 +255,9 @@ FORKS_MAX = [0]
 
 
 def opaque_path(state) -> bool:
-    """the state lies on a path whose condition involves a value the interpreter could not model"""
-    return any((c.left.has_opaque() or c.right.has_opaque()) for c, _t, _w in state.path)
+    """the state lies on a path whose condition involves a value the interpreter could not model, or that went through a call the
+    interpreter did not follow (which may have raised, or changed what follows)"""
+    return bool(getattr(state, "unfollowed", None)) or any((c.left.has_opaque() or c.right.has_opaque()) for c, _t, _w in state.path)
 
 
 def forks_reset() -> None:
@@ -254,6 +276,7 @@ class State:
         self.yields: List[Any] = []                       # one ListV per generator function being run (what it has yielded so far)
         self.globals: Dict[Tuple[str, str], Any] = {}     # module-level mutable objects touched in this run (shared by all frames)
         self.versions: Dict[str, int] = {}                # how often a name has been assigned on this path (see branch_value)
+        self.unfollowed: List[str] = []                   # calls on this path that were not followed: any of them may have raised instead
 
     @property
     def env(self) -> Dict[str, Any]:
@@ -404,6 +427,8 @@ class Interp:
         for n in tree.body:
             if isinstance(n, ast.FunctionDef):
                 env[n.name] = FuncRef(rel, n.name)
+            elif isinstance(n, ast.ClassDef):
+                env[n.name] = ClassV(rel, n)
             elif isinstance(n, ast.ImportFrom):
                 target = self._resolve_import(pkg, n.module, n.level)
                 for a in n.names:
@@ -432,6 +457,8 @@ class Interp:
                     # a table built once at import from a small range is followed element by element
                     saved_u, saved_U = self.unroll_ranges, self.UNROLL
                     self.unroll_ranges = self.UNROLL = 64
+                    saved_max = self.MAX_STEPS
+                    self.MAX_STEPS = min(saved_max, self.steps + 1500)     # a module-level value that takes long to build is not followed
                     try:
                         v = self.eval(n.value, st, rel)
                     except _Raise:
@@ -440,6 +467,7 @@ class Interp:
                         v = Unknown("module-level value not modelled")
                     finally:
                         self.unroll_ranges, self.UNROLL = saved_u, saved_U
+                        self.MAX_STEPS = saved_max
                     if isinstance(v, FloatV):
                         v = FloatV(("name", f"{rel}:{tgt.id}", v.expr))
                     env[tgt.id] = v
@@ -732,6 +760,11 @@ class Interp:
             if isinstance(base, (GenericList, TableV)):
                 state.effects.append(("mutates-input", core.src(target)))
             return
+        if isinstance(target, ast.Attribute):
+            base = self.eval(target.value, state, rel)
+            if isinstance(base, InstV):
+                base.fields[target.attr] = v
+                return
         state.effects.append(("assign-unmodelled", core.src(target)))
 
     def delete(self, t: ast.expr, state: State, rel: str) -> None:
@@ -872,6 +905,12 @@ class Interp:
             it = self.materialise(it, state)
         # a loop that re-binds a generator (a lazily chained pipeline) is followed iteration by iteration
         chains = any(isinstance(state.env.get(nm), GenV) for nm in _assigned_names(st.body))
+        # ... and so is a loop that re-builds a list from itself (a frontier that grows level by level): the list stays summarised
+        # family by family, only the loop is unrolled
+        chains = chains or any(isinstance(state.env.get(nm), ListV) and not state.env[nm].unknown and _read_before_write(st.body, nm)
+                               and any(isinstance(x, ast.Assign) and any(isinstance(t, ast.Name) and t.id == nm for t in x.targets)
+                                       for b_ in st.body for x in ast.walk(b_))
+                               for nm in _assigned_names(st.body))
         if isinstance(it, RangeV) and it.count is None and it.lo.is_const() and it.hi.is_const() and it.hi.const - it.lo.const > 1 \
                 and it.hi.const - it.lo.const > self.unroll_ranges and not (chains and it.hi.const - it.lo.const <= 32):
             items = None
@@ -2102,12 +2141,128 @@ class Interp:
                         return Lin(tb[base.idx.const])
                 return Lin.of(Fn("first_quintant", (base.idx,), self.fq_range[0], self.fq_range[1]))
             return Unknown(f"origin.{attr}")
+        if isinstance(base, InstV):
+            if attr in base.fields:
+                return base.fields[attr]
+            return self.class_attr(base.cls, attr, base, state)
+        if isinstance(base, ClassV):
+            return self.class_attr(base, attr, None, state)
         if isinstance(base, FuncRef) and base.module == "<module>":
             if base.name == "math" and attr in ("pi", "e", "tau"):
                 import math as _m
                 return FloatV(("const", getattr(_m, attr), f"math.{attr}"))
             return FuncRef(f"<{base.name}>", attr)
         return Unknown(f"attribute .{attr} of {type(base).__name__}")
+
+    # -- classes ----------------------------------------------------------------------
+    _PLAIN_BASES = {"object", "NamedTuple", "typing.NamedTuple"}
+
+    def class_kind(self, c: ClassV) -> Optional[str]:
+        """'plain' | 'record' (NamedTuple / @dataclass: the constructor binds the annotated fields) | None (not modelled)"""
+        bases = [core.src(b) for b in c.node.bases]
+        decos = [core.src(d).split("(")[0].split(".")[-1] for d in c.node.decorator_list]
+        if any(d not in ("dataclass", "final", "total_ordering") for d in decos) or c.node.keywords:
+            return None
+        if any(b not in self._PLAIN_BASES for b in bases):
+            return None
+        if "dataclass" in decos or any(b.endswith("NamedTuple") for b in bases):
+            return "record"
+        return "plain"
+
+    def class_member(self, c: ClassV, name: str) -> Any:
+        for st in c.node.body:
+            if isinstance(st, ast.FunctionDef) and st.name == name:
+                return st
+            if isinstance(st, (ast.Assign, ast.AnnAssign)) and st.value is not None:
+                tg = st.targets[0] if isinstance(st, ast.Assign) else st.target
+                if isinstance(tg, ast.Name) and tg.id == name:
+                    return st
+        return None
+
+    def class_attr(self, c: ClassV, attr: str, inst: Optional[InstV], state: State) -> Any:
+        if self.class_kind(c) is None:
+            return Unknown(f"attribute .{attr} of class {c.node.name} (class form not modelled)")
+        m = self.class_member(c, attr)
+        if m is None:
+            return Unknown(f"attribute .{attr} not defined in class {c.node.name}")
+        if isinstance(m, ast.FunctionDef):
+            decos = [core.src(d) for d in m.decorator_list]
+            clo = ClosureV(m, c.rel, {})
+            if decos == ["staticmethod"]:
+                return clo
+            if decos == ["classmethod"]:
+                return BoundV(clo, c)
+            if decos == ["property"] and inst is not None:
+                outs = self.run_node(m, c.rel, m.name, [inst], state, {}, {})
+                if len(outs) == 1 and outs[0].kind == "return" and outs[0].state is state:
+                    return outs[0].value
+                raise _Unmodelled(f"property {c.node.name}.{attr} with several outcomes")
+            if not decos:
+                return BoundV(clo, inst) if inst is not None else clo
+            return Unknown(f"method {c.node.name}.{attr} with decorators {decos}")
+        # class-level constant
+        dst = State()
+        dst.env = dict(self.module_env(c.rel))
+        try:
+            return self.eval(m.value, dst, c.rel)
+        except (_Raise, _Fork, Budget, _Unmodelled, RecursionError):
+            return Unknown(f"class constant {c.node.name}.{attr} not modelled")
+
+    def instantiate(self, c: ClassV, args: List[Any], kwargs: Dict[str, Any], state: State, node: ast.AST) -> Any:
+        kind = self.class_kind(c)
+        if kind is None:
+            state.unfollowed.append(f"constructor of {c.node.name}")
+            return Unknown(f"instance of class {c.node.name} (class form not modelled)")
+        inst = InstV(c, {})
+        init = self.class_member(c, "__init__")
+        if kind == "record" and init is None:
+            names = [st.target.id for st in c.node.body if isinstance(st, ast.AnnAssign) and isinstance(st.target, ast.Name)]
+            defaults = {st.target.id: st.value for st in c.node.body if isinstance(st, ast.AnnAssign) and isinstance(st.target, ast.Name) and st.value is not None}
+            if len(args) > len(names) or any(k not in names for k in kwargs):
+                raise _Raise(ExcV("TypeError", f"{c.node.name}() got unexpected arguments"), state)
+            for i, nm in enumerate(names):
+                if i < len(args):
+                    inst.fields[nm] = args[i]
+                elif nm in kwargs:
+                    inst.fields[nm] = kwargs[nm]
+                elif nm in defaults:
+                    dst = State()
+                    dst.env = dict(self.module_env(c.rel))
+                    inst.fields[nm] = self.eval(defaults[nm], dst, c.rel)
+                else:
+                    raise _Raise(ExcV("TypeError", f"{c.node.name}() missing argument {nm}"), state)
+            return inst
+        if isinstance(init, ast.FunctionDef) and not init.decorator_list:
+            outs = self.run_node(init, c.rel, f"{c.node.name}.__init__", [inst] + list(args), state, kwargs, {})
+            if len(outs) == 1 and outs[0].kind == "return" and outs[0].state is state:
+                return inst
+            if len(outs) == 1 and outs[0].kind == "raise" and outs[0].state is state:
+                raise _Raise(outs[0].value, state)
+            raise _Unmodelled(f"constructor of {c.node.name} with several outcomes")
+        if init is None and not args and not kwargs:
+            return inst
+        state.unfollowed.append(f"constructor of {c.node.name}")
+        return Unknown(f"instance of class {c.node.name}")
+
+    def call_closure(self, fn: ClosureV, args: List[Any], kwargs: Dict[str, Any], state: State, e: ast.AST) -> Any:
+        if id(e) in state.call_memo:
+            v = state.call_memo.pop(id(e))
+            if isinstance(v, _RaiseMarker):
+                raise _Raise(v.exc, state)
+            return v
+        nm_ = getattr(fn.node, "name", "<lambda>")
+        outer = {k: v for k, v in fn.frame.items()}
+        outs = self.run_node(fn.node, fn.rel, nm_, args, state, kwargs, outer)
+        if len(outs) == 1:
+            o = outs[0]
+            if o.state is not state:
+                state.become(o.state)
+            if o.kind == "raise":
+                raise _Raise(o.value, state)
+            return o.value
+        if not outs:
+            raise _Unmodelled(f"call of {nm_} has no outcome")
+        raise _Fork([(o.state, e, o.value if o.kind == "return" else _RaiseMarker(o.value)) for o in outs])
 
     # -- calls ------------------------------------------------------------------------
     def call(self, e: ast.Call, state: State, rel: str) -> Any:
@@ -2136,6 +2291,14 @@ class Interp:
         if isinstance(f, ast.Attribute):
             recv = self.eval(f.value, state, rel)
             args = [self.eval(a, state, rel) for a in e.args]
+            if e.keywords and isinstance(recv, (ListV, MapV)) and f.attr != "sort":
+                # list / dict / set / deque method with keyword arguments (popitem(last=False), ...): not followed
+                if isinstance(recv, ListV):
+                    recv.unknown = recv.unknown or f"method .{f.attr} with keyword arguments"
+                else:
+                    recv.unknown = recv.unknown or f"method .{f.attr} with keyword arguments"
+                state.unfollowed.append(f"method .{f.attr} with keyword arguments at {core.loc(rel, e)}")
+                return Unknown(f"method .{f.attr} with keyword arguments")
             if isinstance(recv, ListV) and recv.unordered:
                 if f.attr == "add" and len(args) == 1:
                     self.set_add(recv, args[0])
@@ -2283,16 +2446,29 @@ class Interp:
             fr = self.attribute(recv, f.attr, state, f)
             if isinstance(fr, FuncRef):
                 return self.call_ref(fr, args, {}, state, e, rel)
+            if isinstance(fr, (ClosureV, BoundV)) and isinstance(recv, (InstV, ClassV)):
+                kw_ = {}
+                for k in e.keywords:
+                    if k.arg is None:
+                        state.unfollowed.append(f"call with **kwargs at {core.loc(rel, e)}")
+                        return Unknown("**kwargs")
+                    kw_[k.arg] = self.eval(k.value, state, rel)
+                if isinstance(fr, BoundV):
+                    return self.call_closure(fr.fn, [fr.first] + args, kw_, state, e)
+                return self.call_closure(fr, args, kw_, state, e)
+            state.unfollowed.append(f"method call .{f.attr} at {core.loc(rel, e)}")
             return Unknown(f"method call .{f.attr}")
         fn = self.eval(f, state, rel)
         args = []
         for a in e.args:
             if isinstance(a, ast.Starred):
+                state.unfollowed.append(f"call with *args at {core.loc(rel, e)}")
                 return Unknown("star-args")
             args.append(self.eval(a, state, rel))
         kwargs = {}
         for k in e.keywords:
             if k.arg is None:
+                state.unfollowed.append(f"call with **kwargs at {core.loc(rel, e)}")
                 return Unknown("**kwargs")
             kwargs[k.arg] = self.eval(k.value, state, rel)
         if isinstance(fn, FuncRef):
@@ -2303,24 +2479,12 @@ class Interp:
         if isinstance(fn, BoundGetV) and len(args) == 1 and not kwargs:
             return self.subscript(fn.obj, args[0], state, e, rel)
         if isinstance(fn, ClosureV):
-            if id(e) in state.call_memo:
-                v = state.call_memo.pop(id(e))
-                if isinstance(v, _RaiseMarker):
-                    raise _Raise(v.exc, state)
-                return v
-            nm_ = getattr(fn.node, "name", "<lambda>")
-            outer = {k: v for k, v in fn.frame.items()}
-            outs = self.run_node(fn.node, fn.rel, nm_, args, state, kwargs, outer)
-            if len(outs) == 1:
-                o = outs[0]
-                if o.state is not state:
-                    state.become(o.state)
-                if o.kind == "raise":
-                    raise _Raise(o.value, state)
-                return o.value
-            if not outs:
-                raise _Unmodelled(f"call of {nm_} has no outcome")
-            raise _Fork([(o.state, e, o.value if o.kind == "return" else _RaiseMarker(o.value)) for o in outs])
+            return self.call_closure(fn, args, kwargs, state, e)
+        if isinstance(fn, BoundV):
+            return self.call_closure(fn.fn, [fn.first] + args, kwargs, state, e)
+        if isinstance(fn, ClassV):
+            return self.instantiate(fn, args, kwargs, state, e)
+        state.unfollowed.append(f"call of {core.src(f)[:40]} at {core.loc(rel, e)}")
         return Unknown(f"call of {core.src(f)}")
 
     @staticmethod
@@ -2349,6 +2513,8 @@ class Interp:
             return got[0] if len(got) == 1 else TupleV(got)
         if isinstance(fn, BoundGetV) and len(args) == 1:
             return self.subscript(fn.obj, args[0], state, node, rel)
+        if isinstance(fn, BoundV):
+            return self.apply_value(fn.fn, [fn.first] + list(args), state, node, rel)
         if isinstance(fn, ClosureV):
             nm_ = getattr(fn.node, "name", "<lambda>")
             outs = self.run_node(fn.node, fn.rel, nm_, list(args), state, {}, dict(fn.frame))
@@ -2455,6 +2621,7 @@ class Interp:
         if fn.module == "<operator>" and fn.name == "itemgetter" and args and not kwargs and all(isinstance(a, StrV) or (isinstance(a, Lin) and a.is_const()) for a in args):
             return ItemGetterV(list(args))
         if fn.module.startswith("<"):
+            state.unfollowed.append(f"{fn.module}.{fn.name}")
             return Unknown(f"{fn.module}.{fn.name}")
         hook = self.call_hooks.get(fn.name)
         if hook is not None:
@@ -2505,6 +2672,12 @@ class Interp:
     def builtin(self, name: str, args: List[Any], kwargs: Dict[str, Any], state: State, node: ast.Call) -> Any:
         if name in ("list", "tuple", "set", "frozenset", "sorted", "sum", "max", "min", "iter", "enumerate", "reversed", "any", "all", "zip") and args:
             args = [self.settle(a) for a in args]
+        kw_read = {"sorted": {"key", "reverse"}, "max": {"default"}, "min": {"default"}, "enumerate": {"start"}, "sum": {"start"},
+                   "int": {"base"}}
+        if kwargs and name != "A5Cell" and name not in ("ValueError", "TypeError", "IndexError", "Exception", "RuntimeError", "OverflowError") \
+                and not set(kwargs) <= kw_read.get(name, set()):
+            state.unfollowed.append(f"{name}() with keyword arguments {sorted(kwargs)}")
+            return Unknown(f"{name}() with keyword arguments {sorted(kwargs)} that are not modelled")
         if name == "A5Cell":
             return CellV(dict(kwargs))
         if name in ("max", "min") and len(args) == 1 and set(kwargs) <= {"default"}:
@@ -2651,6 +2824,8 @@ class Interp:
                         break
                 order.insert(pos, i_)
             return ListV([Seg(elems[i_]) for i_ in order])
+        if name == "sum" and len(args) == 1 and set(kwargs) == {"start"}:
+            args, kwargs = [args[0], kwargs["start"]], {}
         if name == "sum" and len(args) in (1, 2) and not kwargs:
             a0 = args[0]
             if isinstance(a0, GenV):
@@ -2704,11 +2879,12 @@ class Interp:
             if isinstance(a, TableV):
                 return a
             return Unknown("list()")
-        if name == "enumerate" and 1 <= len(args) <= 2:
+        if name == "enumerate" and 1 <= len(args) <= 2 and set(kwargs) <= {"start"} and not (len(args) == 2 and kwargs):
             start = 0
-            if len(args) == 2:
-                if isinstance(args[1], Lin) and args[1].is_const():
-                    start = args[1].const
+            sv = args[1] if len(args) == 2 else kwargs.get("start")
+            if sv is not None:
+                if isinstance(sv, Lin) and sv.is_const():
+                    start = sv.const
                 else:
                     return Unknown("enumerate start")
             return EnumV(args[0], start)
